@@ -10,7 +10,8 @@
 //! Input line:  `x=<fresh|dlen:rlen> w=<t|p>… <ops…>` with ops
 //!   o:<w>:<min_len>  open attempt by worker w (attempt ids k = 0,1,2… in order of appearance)
 //!   c:<k> clone   g:<k> region.db() kept as a handle   d:<k> drop one handle
-//!   r:<k> create_reader   R:<k> drop a reader   b:<k> run_bg   B:<k> a background closure returns
+//!   r:<k> create_reader   R:<k> drop a reader   b:<k> run_bg   B:<k> the oldest running background closure returns
+//!   E:<k> the most recently started background closure returns (tasks are joined in start order)
 //!   f:<k>:<c> write content token c into region "r" and flush
 //!   L / U   an open file description outside the library locks / unlocks `regions`
 //! One `O` line per op.  Spec-level oracle (no model involved), `V` keys:
@@ -290,12 +291,12 @@ impl Worker {
                 }
                 _ => "skip".into(),
             },
-            "finbg" => {
+            "finbg" | "finbglast" => {
                 let Some(i) = self.insts.get_mut(&k) else { return "skip".into() };
                 if i.bg.is_empty() {
                     return "skip".into();
                 }
-                let tx = i.bg.remove(0);
+                let tx = if t[0] == "finbglast" { i.bg.pop().unwrap() } else { i.bg.remove(0) };
                 let _ = tx.send(());
                 if i.bg.is_empty() && i.joiner.is_some() {
                     match i.joiner.take().unwrap() {
@@ -722,6 +723,7 @@ fn exec_case(input: &str) -> Out {
                     "R" => format!("dropreader {k}"),
                     "b" => format!("bg {k}"),
                     "B" => format!("finbg {k}"),
+                    "E" => format!("finbglast {k}"),
                     "f" => format!("flush {k} {}", p[2]),
                     _ => "bad".into(),
                 };
@@ -812,6 +814,7 @@ fn gen_case(rng: &mut Rng) -> String {
             }
             Some(k) => {
                 let mut i = insts[k].clone().unwrap();
+                let bg_before = i.bg;
                 let t = if wind_down {
                     // release: finish tasks, drop readers and handles
                     if i.bg > 0 && (i.joining || rng.chance(50, 100)) {
@@ -906,6 +909,9 @@ fn gen_case(rng: &mut Rng) -> String {
                 if t == "f" {
                     content += 1 + rng.below(1000);
                     toks.push(format!("f:{k}:{content}"));
+                } else if t == "B" && bg_before >= 2 && rng.chance(1, 2) {
+                    // finish the most recently started task first (the tasks are joined in start order)
+                    toks.push(format!("E:{k}"));
                 } else {
                     toks.push(format!("{t}:{k}"));
                 }
@@ -991,7 +997,12 @@ pub fn run(args: &[String]) -> i32 {
     let mut rng = Rng::new(a.seed);
     for id in 0..a.cases {
         // the first case of every shard is the drop-race probe
-        let input = if id == 0 { "race 60".to_string() } else { gen_case(&mut rng) };
+        // directed: two background tasks, the last handle dropped, the YOUNGER task returns first — the
+        // holder is alive until the older one returns, so the open in between must be refused
+        let input = if id == 0 { "race 60".to_string() }
+            else if id == 1 { "x=fresh w=tt o:0:0 b:0 b:0 d:0 E:0 o:1:0 B:0 o:1:0".to_string() }
+            else if id == 2 { "x=fresh w=tp o:0:0 f:0:77 b:0 b:0 b:0 d:0 E:0 o:1:0 E:0 o:1:4096 B:0 o:1:0".to_string() }
+            else { gen_case(&mut rng) };
         emit(&id.to_string(), &input);
     }
     0
